@@ -457,7 +457,7 @@ def m_vec_into_iter(ex, callee, args):
 
 @model(r'^<(std::slice::Iter<.*>|std::vec::IntoIter<.*>|Enumerate<.*>|Box<dyn Iterator<.*>>|'
        r'aho_corasick::FindOverlappingIter<.*>|aho_corasick::FindIter<.*>|regex::SetMatchesIter<.*>|Peekable<.*>|Chars<.*>|'
-       r'std::str::\w+<.*>|Split\w*<.*>|&mut .*|Map<.*>|Rev<.*>|Filter<.*>|Skip<.*>|Take<.*>|Zip<.*>|Chain<.*>|TakeWhile<.*>|SkipWhile<.*>) as IntoIterator>::into_iter$')
+       r'std::str::\w+<.*>|Split\w*<.*>|&mut .*|Map<.*>|Rev<.*>|Filter<.*>|Flatten<.*>|Skip<.*>|Take<.*>|Zip<.*>|Chain<.*>|TakeWhile<.*>|SkipWhile<.*>) as IntoIterator>::into_iter$')
 def m_iter_identity(ex, callee, args):
     return args[0]
 
@@ -533,6 +533,19 @@ def iter_next(ex, it):
         if r.variant == 0:
             return r
         return some(ex.call_closure(it.extra, [r.items[0]]))
+    if k == 'flatten':
+        # over items that are Option<T> / &Option<T>: the Some payloads, in order
+        while True:
+            r = iter_next(ex, it.src)
+            if r.variant == 0:
+                return r
+            item = r.items[0]
+            inner = deref_all(item)
+            if isinstance(inner, Adt) and inner.name == 'Option':
+                if inner.variant == 0:
+                    continue
+                return some(Ref(inner, 0) if isinstance(item, Ref) else inner.items[0])
+            raise Unsupported('flatten over %r' % (inner,))
     if k == 'filter_map':
         while True:
             r = iter_next(ex, it.src)
@@ -1489,6 +1502,11 @@ def m_iter_find(ex, callee, args):
         if ex.branch(ex.call_closure(args[1], [arg])):
             return some(x) if is_find else some(mk_int(i, 'usize'))
         i += 1
+
+
+@model(r'^<.* as Iterator>::flatten$')
+def m_flatten(ex, callee, args):
+    return IterV('flatten', get_iter(args[0]), 0)
 
 
 @model(r'^<.* as Iterator>::filter::<')
